@@ -1,3 +1,5 @@
+//go:build verif && (all || c28)
+
 package main
 
 import (
